@@ -47,7 +47,7 @@ def gen_series(rnd, nmin=4, nmax=9):
 
 
 OPS = ["append_one_sample", "shift_x", "shift_y", "scale_x", "scale_y", "repeat", "truncate_by_index", "normalize_x",
-       "normalize_y", "recreate_from_average", "interpolate", "restore_original", "trend"]
+       "normalize_y", "recreate_from_average", "interpolate", "restore_original", "trend", "to_function", "to_function"]
 
 
 def gen_weaver(rnd, max_ops=3):
@@ -82,6 +82,10 @@ def gen_weaver(rnd, max_ops=3):
             kw = dict(n=rnd.randint(2, 4), rfa_class=rnd.choice(["PiecewiseConstantRFA", "LinearFixedRFA", "ExpFixedRFA", "LinearAdaptiveRFA", "ExpAdaptiveRFA"]))
         elif op == "interpolate":
             kw = dict(n=rnd.randint(4, 9), method=rnd.choice(["linear", "constant"]))
+        elif op == "to_function":
+            if len(w) < 5:
+                continue
+            kw = dict(s=rnd.choice([0, 0, 1.0]))
         elif op == "trend":
             kw = dict(trend_func={"__fn__": [rnd.choice([0, 1, -2, 0.5]), rnd.choice([0, 1]), 0]}, normalized=rnd.random() < 0.5)
         try:
@@ -107,6 +111,8 @@ def build_supplier(d):
     kind = d["__supplier__"]
     if kind == "interp":
         sup = lambda x, y: (lambda t, x=x, y=y: float(np.interp(t, x, y)))       # noqa: E731
+    elif kind == "constant":
+        sup = lambda x, y: (lambda t, level=float(np.mean(y)): level)                # noqa: E731  (array in, scalar out)
     elif kind == "nearest":
         sup = lambda x, y: (lambda t, x=x, y=y: float(y[int(np.argmin(np.abs(np.asarray(x) - t)))]))   # noqa: E731
     else:
@@ -144,6 +150,13 @@ def gen_rfa_recipe(rnd, cls):
         else:
             ys.append(float(rnd.randint(-6, 6)) / 2)
     n = rnd.choice([2, 2, 3, 4, 5, 6, 8, 9])
+    if rnd.random() < 0.12:
+        # evenly spaced abscissae with grid sizes at which accumulated rounding differs between ways of computing the grid
+        step = rnd.choice([1.0, 3.0, 300.0, 0.7])
+        m = rnd.randint(3, 6)
+        xs = [step * i for i in range(m)]
+        ys = ys[:m] + [1.0] * max(0, m - len(ys))
+        n = rnd.choice([49, 11, 17, 22, 34, 7, 9, 14, 15, 28, 30])
     kw = {}
     if cls in ("LinearFixedRFA", "LinearAdaptiveRFA", "ExpFixedRFA", "ExpAdaptiveRFA"):
         if rnd.random() < 0.5:
@@ -152,11 +165,11 @@ def gen_rfa_recipe(rnd, cls):
             kw["a"] = rnd.randint(0, n)
     if cls in ("ExpFixedRFA", "ExpAdaptiveRFA"):
         kw["beta"] = rnd.choice([0.5, 0.0, 1.0, 0.25, 0.7])
-        kw["exp"] = rnd.choice([2.0, 1.0, 0.5, 3.0, 1.5])
+        kw["exp"] = rnd.choice([2.0, 1.0, 0.5, 3.0, 1.5, 4.0, 0.1, 0.05])
     if cls in ("LinearAdaptiveRFA", "ExpAdaptiveRFA"):
         kw["adaptive_smooth"] = rnd.choice([1.0, 1.0, 0.5, 2.0, 3.0])
     if cls == "FunctionRFA":
-        kw["sampling_function_supplier"] = {"__supplier__": rnd.choice(["interp", "nearest", "affine"])}
+        kw["sampling_function_supplier"] = {"__supplier__": rnd.choice(["interp", "nearest", "affine", "constant"])}
     return {"__rfa__": dict(cls=cls, x=xs, y=ys, n=n, kw=kw, xkind=rnd.choice(["nd", "nd", "list"]), ykind=rnd.choice(["nd", "nd", "list"]),
                             xdtype="int64" if uniform and all(float(v).is_integer() for v in xs) and rnd.random() < 0.3 else "float64")}
 
